@@ -96,8 +96,19 @@ impl<'a> Display for FormatReportFormatter<'a> {
 fn annotation(error: &FormattingError) -> Option<Annotation<'_>> {
     let (range_start, range_length) = error.format_len();
     let range_end = range_start + range_length;
+    // A line overflow is measured in columns (a tab counts as `tab_spaces`, a multi-byte
+    // character as one), whereas the snippet is indexed in bytes: translate the columns into
+    // byte offsets of the line and keep them inside it.
+    let (range_start, range_end) = match error.kind {
+        ErrorKind::LineOverflow(..) => {
+            let line = &error.line_buffer;
+            let to_byte = |col: usize| line.char_indices().nth(col).map_or(line.len(), |(i, _)| i);
+            (to_byte(range_start), to_byte(range_end))
+        }
+        _ => (range_start, range_end),
+    };
 
-    if range_length > 0 {
+    if range_start < range_end {
         Some(Level::Error.span(range_start..range_end))
     } else {
         None
